@@ -28,8 +28,13 @@ MOPAC conventions that are *mirrored* on purpose (documented, not defects):
   * h_pp entering the rho2 condition is floored at 0.1 eV (MOPAC calpar.f: HPP = MAX(0.1, HPP));
     the one-centre Fock terms use the unfloored (g_pp - g_p2)/2.
   * PM3 uses two Gaussians per element, AM1 up to four.
+  * optional (`mopac_series=True`, used by Model for the resonance integrals): MOPAC's overlap routine
+    truncates the power series of its B auxiliary integrals after order 6 when
+    1e-6 < |R (zeta_a - zeta_b)/2| <= 0.5.  The reference reproduces the *effect* inside its own quadrature
+    (exp(-beta*eta) -> 6th-order Taylor polynomial); the exact overlaps are always computed too, and the
+    difference (<= 2.5e-7 on an overlap on the C06 lattice) is reported by the check as a documented approximation.
 Deviation that is *not* mirrored: MOPAC and the package stop the secant iteration for rho1 / rho2
-after 5 steps; the reference solves the condition to machine precision.  `secant5_gap()` evaluates
+after 5 steps; the reference solves the condition to machine precision.  `secant5_rho()` evaluates
 how far a 5-step secant lands from the root so that the check can derive its tolerance.
 """
 import csv
@@ -105,7 +110,7 @@ NGAUSS = {"MNDO": 0, "AM1": 4, "PM3": 2}
 class Atom:
     """derived one-centre quantities of an element in a method (all lengths in bohr, energies eV)."""
 
-    def __init__(self, method, Z, repo=None, exact_root=True):
+    def __init__(self, method, Z, repo=None):
         p = load_table(method, repo)[Z]
         self.method, self.Z = method, Z
         self.p = p
